@@ -47,7 +47,7 @@ class C09(Property):
         k = 0
         while len(cases) < n:
             if rng.random() < 0.1:
-                cases.append(self.split_case(rng, k))
+                cases.append(self.split_case(rng, k) if rng.random() < 0.6 else self.rest_case(rng, k))
                 k += 1
                 continue
             opts = self.gen_def(rng)
@@ -150,6 +150,29 @@ class C09(Property):
         want = gen.vtuple(["true" if len(left) != len(lw) else "false", fv, gen.vlist([hexb(x) for x in right])])
         return Case("g%dz" % k, opts, argv, tags={"role": "split", "group": "g%dz" % k, "want": want, "wrap": w})
 
+    @staticmethod
+    def rest_case(rng, k):
+        """The documented way to collect the rest of a line verbatim: `any("REST", Some).many()` (optionally inside a
+        subcommand) receives every item to the right of `--` as it is -- dash-looking items and later `--` included."""
+        names = gen.Names(rng)
+        sw = gen.flag(names.named())
+        rest = gen.wrap(rng.choice(["many", "many", "some"]), {"k": "anyp", "mv": "REST", "menu": 0, "txt": b"lit", "anywhere": False},
+                        msg="need one", catch=False)
+        p = gen.con(sw, rest)
+        pre = []
+        if rng.random() < 0.3:
+            cn = names.cmdname()
+            p = gen.cmd(cn, gen.options(p, descr="Lrun"), help="run")
+            pre = [cn.encode()]
+        opts = gen.options(p, descr="Lrest")
+        nr = rng.choice([1, 1, 2, 3, 5])
+        right = [rng.choice([b"W%dq" % i, b"W%dq" % i, rng.choice(DASHY)]) for i in range(nr)]
+        flagged = rng.random() < 0.5
+        argv = pre + ([gen.spell_flag(rng, sw)] if flagged else []) + [b"--"] + right
+        want = gen.vtuple(["true" if flagged else "false", gen.vlist([hexb(x) for x in right])])
+        return Case("g%dy" % k, opts, argv, tags={"role": "split", "group": "g%dy" % k, "want": want, "wrap": "any-rest",
+                                                  "what": "`any(..)` under many/some must receive every item to the right of `--` verbatim"})
+
     def judge(self, cases, model, impl):
         out, base, nontrivial, dist = [], {}, [], {}
         for c in cases:
@@ -157,9 +180,10 @@ class C09(Property):
                 nontrivial.append(c.line())
                 ic = impl.get(c.id)
                 if compare.impl_class(ic) != "OK" or ic[1] != c.tags["want"]:
-                    out.append(Finding("violation", c, "a non_strict positional under `%s` followed by strict().many() must split the "
-                                                       "words at `--`: expected OK %s, got %s"
-                                       % (c.tags["wrap"], c.tags["want"], common.show(ic))))
+                    out.append(Finding("violation", c, "%s: expected OK %s, got %s"
+                                       % (c.tags.get("what", "a non_strict positional under `%s` followed by strict().many() must split "
+                                                                     "the words at `--`" % c.tags["wrap"]),
+                                          c.tags["want"], common.show(ic))))
         for c in cases:
             r = compare.agree_class_value(model.get(c.id), impl.get(c.id))
             if r:
